@@ -124,6 +124,9 @@ AsgPat == {C0("id"), C0("expr"), CO("asg", "="), CO("asg", "+="), CN("arr", 1), 
 \* statements inside class bodies; private names
 ClassBody == {C0("id"), C0("expr"), CN("ps", 0), CN("blk", 0), CN("blk", 1), C0("ctor"), C0("sblock"), CN("pfield", 0), CO("pmeth2", ""), CO("meth", ""), CO("smeth", "async"),
               CON("cdecl", "", 2), CON("clsn", "", 2), C0("pdot"), C0("opdot"), C0("dot"), CO("asg", "="), C0("ret"), C0("nt"), CO("un", "await"), C0("ret0")}
+\* arrow parameters: the cover grammar (parenthesised expression re-read as parameters), computed keys and defaults inside
+ArrowPat == {C0("id"), C0("expr"), CO("arrow", ""), CO("arrow", "async"), CN("ps", 1), C0("bid"), C0("bdef"), CN("barr", 1), CN("bobj", 1), C0("bpcomp"), CO("bpkv", "pr"), C0("bpshd"),
+             CN("arr", 1), CN("obj", 1), CO("pkv", "pr"), C0("psh"), CO("bin", "+"), CO("lit", "0"), C0("grp"), CN("call", 1), C0("idx"), C0("dot"), CO("un", "-"), CO("asg", "=")}
 \* deeper patterns in one context
 BindDeep == {C0("id"), C0("bid"), C0("bdef"), CN("barr", 0), CN("barr", 1), CN("barr", 2), CON("barr", "h1", 1), CON("barr", "r", 1), CON("barr", "r", 2),
              CN("bobj", 0), CN("bobj", 1), CN("bobj", 2), CON("bobj", "r", 0), CON("bobj", "r", 1),
@@ -140,7 +143,7 @@ ClassCons == {C0("id"), C0("expr"), CN("ps", 0), CN("ps", 1), C0("bid"), CN("blk
              \cup {CO("meth", k) : k \in MethKinds} \cup {CO("smeth", k) : k \in {"", "set"}} \cup {CO("pmeth2", k) : k \in {"", "get"}}
              \cup {CO("cmeth", k) : k \in {"", "async*"}}
 
-AllCons == ExprFull \cup ExprReduced \cup LeafCons \cup NegCons \cup StmtCons \cup StmtRed \cup AsiCons \cup BindCons \cup BindDeep \cup AsgPat \cup ClassBody \cup ClassAsi \cup ClassCons
+AllCons == ExprFull \cup ExprReduced \cup LeafCons \cup NegCons \cup StmtCons \cup StmtRed \cup AsiCons \cup BindCons \cup BindDeep \cup ArrowPat \cup AsgPat \cup ClassBody \cup ClassAsi \cup ClassCons
 \* configurations for -simulate: everything at once
 SimCons == AllCons \ {c \in AllCons : c.k \in {"badasg", "dup"}}
 
@@ -589,11 +592,14 @@ Needs(t) ==
       [] k \in Loops -> Kids \ {"brk","loop"}
       [] k = "sw" -> Kids \ {"brk"}
       [] k = "label" -> Kids \ ({"lbl:" \o t.op} \cup (IF IsLoopish(t.c[1]) THEN {"clbl:" \o t.op} ELSE {}))
-      [] k \in {"fn","fnn","fdecl","pmeth","meth","smeth","pmeth2","cmeth","ctor","sblock"} -> Kids \cap {"priv","sloppy"}
+      [] k \in {"fn","fnn","fdecl","pmeth","meth","smeth","pmeth2","ctor","sblock"} -> Kids \cap {"priv","sloppy"}
+      \* a computed key is evaluated in the context of the class / object literal
+      [] k = "cmeth" -> Needs(t.c[1]) \cup (UNION {Needs(t.c[i]) : i \in 2..Len(t.c)} \cap {"priv","sloppy"})
       [] k = "arrowb" -> Kids \ ({"ret"} \cup (IF t.op = "async" THEN {"async"} ELSE {}))
       [] k = "arrow" -> Kids \ (IF t.op = "async" THEN {"async"} ELSE {})
       [] k \in {"cls","clsn","cdecl"} -> (IF \E i \in DOMAIN t.c : t.c[i].k \in {"pfield","pmeth2"} THEN Kids \ {"priv"} ELSE Kids)
       [] k \in {"field","sfield","pfield"} -> Kids \ {"nt"}
+      [] k = "cfield" -> Needs(t.c[1]) \cup (UNION {Needs(t.c[i]) : i \in 2..Len(t.c)} \ {"nt"})
       [] OTHER -> Kids
 
 (* ------------------------------- what the grammar's side conditions and early errors exclude ------------------------------- *)
@@ -638,7 +644,8 @@ Ok(t) ==
              /\ Cardinality({i \in DOMAIN t.c : t.c[i].k = "ctor"}) <= 1
              /\ Cardinality({i \in DOMAIN t.c : t.c[i].k \in {"pfield","pmeth2"}}) <= 1
              /\ \A i \in DOMAIN t.c : "sloppy" \notin Needs(t.c[i])
-      [] k \in {"field","sfield","pfield","cfield"} -> Needs(t) \subseteq {"priv"}
+      [] k \in {"field","sfield","pfield"} -> Needs(t) \subseteq {"priv"}
+      [] k = "cfield" -> t.c[1].k # "tag" /\ UNION {Needs(t.c[i]) : i \in 2..Len(t.c)} \subseteq {"priv", "nt"}
       [] k = "dci" -> TRUE
       [] k = "var" -> \A i \in DOMAIN t.c : (t.c[i].k = "dc" => ~IsPatternB(t.c[i].c[1]) /\ t.op # "const")
       [] k \in {"if","while","label"} -> ~IsDeclaration(t.c[Len(t.c)]) /\ (k = "label" => t.op \notin Labels(t.c[1]))
@@ -711,6 +718,8 @@ Fills(con, h) ==
       [] h = "T" -> con.k \in TargetKinds
       [] h = "TP" -> con.k \in TargetKinds \cup {"arr","obj"}
       [] h = "SB" -> cat = "S" /\ ~DeclCon(con)
+      [] h = "PS" -> con.k = "ps"                          \* FormalParameters in parentheses
+      [] h = "PSA" -> con.k \in {"ps", "psid"}             \* ArrowParameters: also a single BindingIdentifier
       [] h = "BT" -> cat = "B" /\ con.k # "bdef"          \* BindingIdentifier | BindingPattern, without Initializer
       [] OTHER -> cat = h
 \* operand categories, refined: assignment targets, statement (not declaration) bodies
@@ -720,6 +729,8 @@ ArgsFor(con, h) ==
       [] k \in {"pre","post"} -> <<"T">>
       [] k = "asg" -> <<(IF con.op = "=" THEN "TP" ELSE "T"), "E">>
       [] k \in {"forin","forof","forawait"} -> <<(IF con.op = "e" THEN "TP" ELSE "BT"), "E", "SB">>
+      [] k = "arrow" -> <<"PSA","E">>
+      [] k = "arrowb" -> <<"PSA","K">>
       [] k = "dc" -> <<"BT">>
       [] k \in {"dci","bdef"} -> <<"BT","E">>
       [] k = "try" /\ con.op = "cp" -> <<"K","BT","K">>
